@@ -574,8 +574,12 @@ class List(Sequence):
             def key(slot):
                 return member_key(slot.element)
 
-        list.sort(self, key=key, reverse=reverse)
-        self._renumber()
+        try:
+            list.sort(self, key=key, reverse=reverse)
+        finally:
+            # a comparison that raises leaves the slots rearranged: their
+            # names follow their positions in that case too
+            self._renumber()
 
     def __reversed__(self):
         for slot in list.__reversed__(self):
